@@ -170,6 +170,11 @@ class BufGen:
         ast = {"body": self.stmts(self.p["top_stmts"], 0, [], False), "views": bool(self.p.get("views")), "streams": bool(self.p.get("streams"))}
         if self.p.get("views") and self.p.get("nested_views"):
             ast["nested_views"] = True
+        if self.p.get("helper"):
+            # a private function with a body of its own (its own local buffers), called from @f like any other function
+            hb = self.stmts(self.r.randint(1, 4), 0, [], False)
+            ast["helper"] = hb
+            ast["body"].insert(self.r.randint(0, len(ast["body"])), {"k": "callh"})
         if self.p.get("select"):
             ast["select"] = True  # %sel0 = one of two local buffers, decided at run time
         if self.p.get("n_allocs", N_ALLOCS) != N_ALLOCS:
@@ -277,6 +282,8 @@ def emit(ast) -> str:
                     e(ind, "} else {")
                     stmts(ind + 1, s["else"])
                 e(ind, "}")
+            elif k == "callh":
+                e(ind, f'func.call @helper({", ".join([f"%a{i}" for i in range(N_ARGS)] + ARGS)}) : ({", ".join([T3] * N_ARGS + ARG_TYPES)}) -> ()')
             elif k == "xr":
                 n_ = s["n"]
                 e(ind, "scf.execute_region {")
@@ -330,6 +337,18 @@ def emit(ast) -> str:
         stmts(2, b2)
     e(2, "func.return")
     e(1, "}")
+    if ast.get("helper") is not None:
+        e(1, f"func.func private @helper({sig}) {{")
+        for c in range(3):
+            e(2, f"%c{c} = arith.constant {c} : index")
+        for i in range(ast.get("n_allocs", N_ALLOCS)):
+            e(2, f"%b{i} = memref.alloc() {{vsite = {40 + i} : i64}} : {T1}")
+        if ast.get("streams"):
+            for nm, ty in (("%e0", "i32"), ("%e1", "i32"), ("%f0", "i8"), ("%f1", "i8")):
+                e(2, f'{nm} = memref.alloc() {{vsite = {60 + ord(nm[1]) + int(nm[2])} : i64}} : memref<8x{ty}, "L1">')
+        stmts(2, ast["helper"])
+        e(2, "func.return")
+        e(1, "}")
     e(0, "}")
     return "\n".join(L)
 
